@@ -85,4 +85,10 @@ CLAIMED["C14"] = (
     "every conversion must preserve exactly the executed vertices, their times and the message relations.",
     "synthetic records built with the public dataclasses; real records exercised by C01/C03/C13", "DESIGN.md §4 C14",
 )
+CLAIMED["C16"] = (
+    PBT + ": model-based generation of operation histories (add node / connect / set_delay / close cycle) with a reference model (own longest-path DP) checked after every step; info round trip; simulated episode",
+    "Generated histories over growing node sets incl. shadow input names, delays reset to 0.0 and un-skipped cycles; phases, infos, delay settings and "
+    "from_info/connect_from_info round trips are compared with the model after every operation; a few histories end in a simulated episode whose recorded delays must be the configured ones.",
+    "default expected delay (99th percentile) read back once at creation; phases to 1e-9", "DESIGN.md §4 C16",
+)
 NOT_APPLICABLE = {}
